@@ -41,5 +41,20 @@ pub fn generate(a: &Args) {
             decode_event(&mut out, name, &rows, n, &llrs, limit, cls % 12);
         }
     }
+    if is_thorough(a) {
+        // real codes: DVB-S2 short 1/2 (16200 x 7200 checks... n = 16200) and CCSDS AR4JA 1/2 k=1024; all-zero codeword + Gaussian noise
+        use ldpc_toolbox::codes::ccsds::{AR4JACode, AR4JAInfoSize, AR4JARate};
+        use ldpc_toolbox::codes::dvbs2::Code as DvbCode;
+        let codes = [DvbCode::R1_2short.h(), AR4JACode::new(AR4JARate::R1_2, AR4JAInfoSize::K1024).h()];
+        for h in codes.iter() {
+            let n = h.num_cols();
+            let rows: Vec<Vec<usize>> = (0..h.num_rows()).map(|r| h.iter_row(r).copied().collect()).collect();
+            for (k, name) in NAMES.iter().enumerate() {
+                let sigma = [0.6, 0.8, 1.0][k % 3];
+                let llrs: Vec<f64> = (0..n).map(|_| 2.0 / (sigma * sigma) * (1.0 + sigma * rng.gauss())).collect();
+                decode_event(&mut out, name, &rows, n, &llrs, [10usize, 3, 25][k % 3], 99);
+            }
+        }
+    }
     out.finish();
 }
